@@ -56,6 +56,7 @@ def run(rep, idx, tier):
     query_coherence(rep, idx)
     from .c19 import shared_state
     shared_state(rep, idx, rule="C02.10", classes=["MemoryMap", "_RangeMap", "_Namespace"])
+    glue.param_refusals(rep, "C02.10", idx, only=["MemoryMap.__init__", "ResourceInfo.__init__"])
 
 
 def handover(rep, idx):
